@@ -114,12 +114,21 @@ func setupUniverse(timeT types.Type) {
 	generic1("regionof", func(tp *types.TypeParam) types.Type { return mathintType })
 	generic1("offsetof", func(tp *types.TypeParam) types.Type { return it })
 	generic1("f64", func(tp *types.TypeParam) types.Type { return types.Typ[types.Float64] })
+	generic1("refof", func(tp *types.TypeParam) types.Type { return mathintType })
+	{
+		tk := types.NewTypeParam(types.NewTypeName(token.NoPos, nil, "K", nil), types.Universe.Lookup("comparable").Type())
+		types.Universe.Insert(types.NewFunc(token.NoPos, nil, "visited", types.NewSignatureType(nil, nil, []*types.TypeParam{tk}, types.NewTuple(v("k", tk)), types.NewTuple(v("", bt)), false)))
+	}
 	{
 		te := types.NewTypeParam(types.NewTypeName(token.NoPos, nil, "E", nil), anyT)
 		sig := types.NewSignatureType(nil, nil, []*types.TypeParam{te}, types.NewTuple(v("a", types.NewSlice(te)), v("b", types.NewSlice(te))), types.NewTuple(v("", bt)), false)
 		types.Universe.Insert(types.NewFunc(token.NoPos, nil, "permutation", sig))
 	}
 	fsig := types.NewSignatureType(nil, nil, nil, types.NewTuple(v("i", it)), types.NewTuple(v("", bt)), false)
+	{
+		fsig1 := types.NewSignatureType(nil, nil, nil, types.NewTuple(v("i", it)), types.NewTuple(v("", bt)), false)
+		types.Universe.Insert(types.NewFunc(token.NoPos, nil, "all__", types.NewSignatureType(nil, nil, nil, types.NewTuple(v("f", fsig1)), types.NewTuple(v("", bt)), false)))
+	}
 	for _, q := range []string{"forall__", "exists__"} {
 		sig := types.NewSignatureType(nil, nil, nil, types.NewTuple(v("lo", it), v("hi", it), v("f", fsig)), types.NewTuple(v("", bt)), false)
 		types.Universe.Insert(types.NewFunc(token.NoPos, nil, q, sig))
@@ -130,6 +139,7 @@ func setupUniverse(timeT types.Type) {
 		types.Universe.Insert(types.NewFunc(token.NoPos, nil, n, types.NewSignatureType(nil, nil, nil, types.NewTuple(v("a", mathintType), v("b", mathintType)), types.NewTuple(v("", mathintType)), false)))
 	}
 	if timeT != nil {
+		types.Universe.Insert(types.NewFunc(token.NoPos, nil, "lastnow", types.NewSignatureType(nil, nil, nil, nil, types.NewTuple(v("", timeT)), false)))
 		types.Universe.Insert(types.NewFunc(token.NoPos, nil, "unixns", types.NewSignatureType(nil, nil, nil, types.NewTuple(v("t", timeT)), types.NewTuple(v("", mathintType)), false)))
 	}
 	{
@@ -141,6 +151,9 @@ func setupUniverse(timeT types.Type) {
 		te := types.NewTypeParam(types.NewTypeName(token.NoPos, nil, "E", nil), anyT)
 		sig2 := types.NewSignatureType(nil, nil, []*types.TypeParam{te}, types.NewTuple(v("a", types.NewSlice(te)), v("b", types.NewSlice(te))), types.NewTuple(v("", bt)), false)
 		types.Universe.Insert(types.NewFunc(token.NoPos, nil, "sameslice", sig2))
+		ts := types.NewTypeParam(types.NewTypeName(token.NoPos, nil, "T", nil), anyT)
+		sig3 := types.NewSignatureType(nil, nil, []*types.TypeParam{ts}, types.NewTuple(v("a", ts), v("b", ts)), types.NewTuple(v("", bt)), false)
+		types.Universe.Insert(types.NewFunc(token.NoPos, nil, "same", sig3))
 	}
 }
 
@@ -286,6 +299,12 @@ func (vc *VC) compileContract(fi *FuncInfo) {
 	all = append(all, con.Ensures...)
 	all = append(all, con.Modifies...)
 	all = append(all, con.PanicsWhen...)
+	for _, cbs := range con.Callbacks {
+		all = append(all, cbs...)
+	}
+	for _, sp := range con.Spawns {
+		all = append(all, sp...)
+	}
 	var ords []string
 	for o := range con.Loops {
 		ords = append(ords, o)
@@ -410,6 +429,29 @@ func (vc *VC) verifyFunc(fi *FuncInfo) (res *FuncResult) {
 			}
 		}
 	}
+	if fi.Con != nil {
+		for _, g := range fi.Con.Ghosts {
+			gt := vc.ghostType(fi, g)
+			gv := namedValue("ghost|"+g.Name, gt)
+			st.assumeValid(gv)
+			for p, t := range gv.L {
+				if t.Sort == sortRef && (p == "" || strings.HasSuffix(p, ".ref")) {
+					st.assume(mkCmp("le", t, st.alloc0))
+					st.assume(mkCmp("lt", mkInt(sortRef, 0), t))
+					// ghost state is separate from every real argument
+					for _, a := range args {
+						for ap, at := range a.L {
+							if at.Sort == sortRef && (ap == "" || strings.HasSuffix(ap, ".ref")) {
+								st.assume(mkNot(mkEq(t, at)))
+							}
+						}
+					}
+				}
+			}
+			f0.bind[g.Name] = gv
+			f0.entry[g.Name] = gv
+		}
+	}
 	f0.oldSt = st.clone()
 	baseRI := &ReplayInfo{Fn: fi}
 	{
@@ -437,9 +479,11 @@ func (vc *VC) verifyFunc(fi *FuncInfo) (res *FuncResult) {
 			f0.entry[e.Name] = v
 			f0.bind[e.Name] = v
 		}
+		ex.assuming++
 		for _, c := range fi.Con.Requires {
 			st.assume(ex.evalClause(c, st, st, f0.bind))
 		}
+		ex.assuming--
 		f0.oldSt = st.clone()
 		// cover: the precondition is satisfiable
 		ex.obls = append(ex.obls, &Obligation{Name: fi.Short + "/cover:requires", Kind: "cover", Func: fi.Short, Goal: tFalse, Facts: append([]*Term(nil), st.pc...), Cover: true})
@@ -589,9 +633,11 @@ func (vc *VC) checkLemma(l *Lemma) (o *Obligation, err error) {
 		bind[name] = v
 	}
 	ex.frames = []*Frame{{info: p.TypesInfo, pkg: p.Types, entry: map[string]Value{}, lit: true}}
+	ex.assuming++
 	for _, c := range reqs {
 		st.assume(ex.evalClause(c, st, st, bind))
 	}
+	ex.assuming--
 	var gs []*Term
 	for _, c := range enss {
 		gs = append(gs, ex.evalClause(c, st, st, bind))
@@ -621,4 +667,19 @@ func (ex *Exec) releaseGuarded(st *State, name string, n ast.Node) {}
 func (ex *Exec) callIfaceModular(con *Contract, fn *types.Func, recv *Value, args []Value, st *State, call *ast.CallExpr) []Value {
 	unsupp("interface method contracts not yet supported")
 	return nil
+}
+
+// ghostType resolves the Go type text of a ghost parameter in the scope of the function's file.
+func (vc *VC) ghostType(fi *FuncInfo, g GhostParam) types.Type {
+	src := "func(" + g.Name + " " + g.Type + ") {}"
+	e, err := parser.ParseExprFrom(vc.fset, "ghost", src, 0)
+	if err != nil {
+		unsupp("ghost parameter %s: %v", g.Name, err)
+	}
+	info := &types.Info{Types: map[ast.Expr]types.TypeAndValue{}, Defs: map[*ast.Ident]types.Object{}, Uses: map[*ast.Ident]types.Object{}}
+	if err := types.CheckExpr(vc.fset, fi.Pkg.Types, fi.Decl.Name.Pos(), e, info); err != nil {
+		unsupp("ghost parameter %s: %v", g.Name, err)
+	}
+	lit := e.(*ast.FuncLit)
+	return info.Defs[lit.Type.Params.List[0].Names[0]].Type()
 }
